@@ -202,3 +202,19 @@ func IntRange(name string, lo, hi int64) int64 {
 	Assume(v >= lo && v <= hi)
 	return v
 }
+
+// ResetReplay restarts the per-name counters so the harness can be run again in the same process (stress replay).
+func ResetReplay() {
+	mu.Lock()
+	counts = map[string]int{}
+	mu.Unlock()
+}
+
+// Settle lets the other goroutines run until they block (call-order replay granularity). It is a no-op in the
+// symbolic run, where every interleaving is explored anyway. VERIF_SETTLE=0 disables it (the replay driver alternates).
+func Settle() {
+	if os.Getenv("VERIF_SETTLE") == "0" {
+		return
+	}
+	time.Sleep(30 * time.Millisecond)
+}
